@@ -44,6 +44,22 @@ Theorem C16_only_reflected_swap :
 Proof. vm_compute. reflexivity. Qed.
 Print Assumptions C16_only_reflected_swap.
 
+(* every named method of the documented operator surface exists in today's source and does nothing but
+   forward (self[, other]) unswapped to the algebra operator of the same name: no method carries a
+   private fast path next to the generated operator (a method with any other body is absent from the
+   regenerated table, and this theorem fails) *)
+Definition named_methods : list (string * nat) :=
+  [("neg", 1); ("reverse", 1); ("involute", 1); ("conjugate", 1); ("sqrt", 1); ("normsq", 1); ("inv", 1);
+   ("add", 2); ("sub", 2); ("div", 2); ("gp", 2); ("sw", 2); ("proj", 2); ("cp", 2); ("acp", 2); ("ip", 2);
+   ("op", 2); ("lc", 2); ("rc", 2); ("sp", 2); ("rp", 2); ("outerexp", 1); ("outersin", 1); ("outercos", 1);
+   ("outertan", 1); ("polarity", 1); ("unpolarity", 1); ("hodge", 1); ("unhodge", 1)]%nat.
+Theorem C16_named_methods_forward :
+  forallb (fun e => match lookup (fst e) mv_methods with
+                    | Some (op, sw, ar) => String.eqb op (fst e) && negb sw && Nat.eqb ar (snd e)
+                    | None => false end) named_methods = true.
+Proof. vm_compute. reflexivity. Qed.
+Print Assumptions C16_named_methods_forward.
+
 (* ------------------------------------------------------------------------------------------------
    element-wise action on array-valued coefficients: an array-valued coefficient is a function
    idx -> R, the operators run on the pointwise structure pw_ops, and indexing (evaluation at idx)
